@@ -133,7 +133,7 @@ structure MsgWFT (m : Message) : Prop where
   qs : ∀ q ∈ m.queries, q.name.WF ∧ q.qtype < 65536 ∧ q.qclass < 65536
   an : ∀ r ∈ m.answers, SectionOK m.md.op r
   ns : ∀ r ∈ m.authorities, SectionOK m.md.op r
-  ar : ∀ r ∈ m.additionals, SectionOK m.md.op r
+  ar : ∀ r ∈ m.additionals, SectionOK m.md.op r true
   edns : ∀ ed, m.edns = some ed → EdnsWF ed ∧ ed.rcodeHigh = rcodeHigh m.md.rcode
   sig : ∀ s, m.signature = some s → SigWF s
 
@@ -302,9 +302,9 @@ theorem emitMessage_reads_tsig (opq : Nat → Rd Bytes) (m : Message) (ed : Edns
           have LQ := lay_final (isLayout_all _ (by
             intro L hL; simp only [List.mem_map] at hL; obtain ⟨q, _, rfl⟩ := hL; exact isLayout_query q))
             (by omega) P2.lay pre2 hfblen hsame
-          have recsLay : ∀ rs : List Record, (∀ r ∈ rs, SectionOK m.md.op r) →
+          have recsLay : ∀ (b : Bool) (rs : List Record), (∀ r ∈ rs, SectionOK m.md.op r b) →
               IsLayout (layAll (rs.map layRecord)) := by
-            intro rs hrs
+            intro b rs hrs
             refine isLayout_all _ ?_
             intro L hL
             simp only [List.mem_map] at hL
@@ -316,9 +316,9 @@ theorem emitMessage_reads_tsig (opq : Nat → Rd Bytes) (m : Message) (ed : Edns
           have wa := sectionOK_take anC hwf.an
           have wn := sectionOK_take nsC hwf.ns
           have wr := sectionOK_take arC hwf.ar
-          have LA := lay_final (recsLay _ wa) (by omega) P3.lay pre3 hfblen hsame
-          have LN := lay_final (recsLay _ wn) (by omega) P4.lay pre4 hfblen hsame
-          have LR := lay_final (recsLay _ wr) (by omega) P5.lay pre5 hfblen hsame
+          have LA := lay_final (recsLay _ _ wa) (by omega) P3.lay pre3 hfblen hsame
+          have LN := lay_final (recsLay _ _ wn) (by omega) P4.lay pre4 hfblen hsame
+          have LR := lay_final (recsLay _ _ wr) (by omega) P5.lay pre5 hfblen hsame
           have hmdw : mdw.id = m.md.id ∧ mdw.op = m.md.op ∧ mdw.rcode = m.md.rcode := by
             rw [← hMD]; exact ⟨rfl, rfl, rfl⟩
           have hhw : HeaderWF mdw cc := by
@@ -533,9 +533,9 @@ theorem emitMessage_reads_tsig_noedns (opq : Nat → Rd Bytes) (m : Message) (s 
           have LQ := lay_final (isLayout_all _ (by
             intro L hL; simp only [List.mem_map] at hL; obtain ⟨q, _, rfl⟩ := hL; exact isLayout_query q))
             (by omega) P2.lay pre2 hfblen hsame
-          have recsLay : ∀ rs : List Record, (∀ r ∈ rs, SectionOK m.md.op r) →
+          have recsLay : ∀ (b : Bool) (rs : List Record), (∀ r ∈ rs, SectionOK m.md.op r b) →
               IsLayout (layAll (rs.map layRecord)) := by
-            intro rs hrs
+            intro b rs hrs
             refine isLayout_all _ ?_
             intro L hL
             simp only [List.mem_map] at hL
@@ -547,9 +547,9 @@ theorem emitMessage_reads_tsig_noedns (opq : Nat → Rd Bytes) (m : Message) (s 
           have wa := sectionOK_take anC hwf.an
           have wn := sectionOK_take nsC hwf.ns
           have wr := sectionOK_take arC hwf.ar
-          have LA := lay_final (recsLay _ wa) (by omega) P3.lay pre3 hfblen hsame
-          have LN := lay_final (recsLay _ wn) (by omega) P4.lay pre4 hfblen hsame
-          have LR := lay_final (recsLay _ wr) (by omega) P5.lay pre5 hfblen hsame
+          have LA := lay_final (recsLay _ _ wa) (by omega) P3.lay pre3 hfblen hsame
+          have LN := lay_final (recsLay _ _ wn) (by omega) P4.lay pre4 hfblen hsame
+          have LR := lay_final (recsLay _ _ wr) (by omega) P5.lay pre5 hfblen hsame
           have hmdw : mdw.id = m.md.id ∧ mdw.op = m.md.op ∧ mdw.rcode = m.md.rcode := by
             rw [← hMD]; exact ⟨rfl, rfl, rfl⟩
           have hhw : HeaderWF mdw cc := by
@@ -777,4 +777,99 @@ theorem exTsig_wf : SigWF exTsig := by
   refine ⟨⟨by decide, by decide, by decide, by decide, Or.inr ⟨rfl, ?_, ?_, trivial⟩⟩, rfl, ⟨_, _, _, _, _, _, _, rfl⟩⟩
   · exact ⟨rfl, by decide, by decide, by decide⟩
   · exact ⟨by decide, by decide, by decide, by decide⟩
+end HickoryVerif.C02
+
+namespace HickoryVerif.C02
+open HickoryVerif HickoryVerif.Name HickoryVerif.Wire HickoryVerif.C03
+
+/-- the TSIG record of a decoded message satisfies `SigWF` and is its own decoded form -/
+theorem sigWF_of_recV {s : Record} (hv : RecV s) (ht : s.rdata.isTsig = true) : SigWF s ∧ s.fq = s := by
+  have hp : s.rdata.proved = true := by
+    cases hd : s.rdata <;> rw [hd] at ht <;> simp [RData.isTsig] at ht <;> rfl
+  obtain ⟨h1, h2, h3, h4⟩ := hv.data hp
+  have hty : s.rtype = T_TSIG := by
+    cases hd : s.rdata <;> rw [hd] at ht h1 <;> simp [RData.isTsig] at ht
+    exact h1.1
+  refine ⟨⟨⟨hv.name, ⟨hv.rtype, by rw [hty]; decide⟩, hv.cls, hv.ttl, Or.inr ⟨hp, h1, h2, h4⟩⟩, hty, ?_⟩, ?_⟩
+  · cases hd : s.rdata <;> rw [hd] at ht <;> simp [RData.isTsig] at ht
+    exact ⟨_, _, _, _, _, _, _, rfl⟩
+  · simp only [Record.fq, fq_self hv.fqdn, h3]
+
+/-- **what the decoder can produce, with a TSIG record**: `MsgWFT`, and the message is its own decoded form -/
+theorem readMessage_wft (opq : Nat → Rd Bytes) (b : Bytes) (m : Message) (s : Record) (p : Nat)
+    (hb : Bytes.WF b) (h : Rd.run (readMessage opq) b 0 = .ok (m, p)) (hc : Covered m)
+    (hsig : m.signature = some s) :
+    MsgWFT m ∧ decodedForm m = m ∧ (m.edns = none → m.md.rcode < 16) := by
+  obtain ⟨md0, hid, hop, hrc, hmd, hq, han, hns, har, hedns, hsg⟩ := readMessage_msgV opq b m p hb h
+  have hopm : m.md.op = md0.op := by rw [hmd]; cases m.edns <;> rfl
+  obtain ⟨san, sns, sar⟩ := sections_of_msgV hopm hc han hns har
+  obtain ⟨hsv, hst⟩ := hsg s hsig
+  obtain ⟨hswf, hsfq⟩ := sigWF_of_recV hsv hst
+  have hidm : m.md.id = md0.id := by rw [hmd]; cases m.edns <;> rfl
+  refine ⟨⟨by rw [hidm]; exact hid, by rw [hopm]; exact hop, ?_,
+    fun q hq' => ⟨(hq q hq').1, (hq q hq').2.2⟩, fun r hr => (san r hr).1, fun r hr => (sns r hr).1,
+    fun r hr => (sar r hr).1, ?_, ?_⟩, ?_, ?_⟩
+  · rw [hmd]
+    cases hed : m.edns with
+    | none => show md0.rcode < 4096; omega
+    | some ed =>
+      have := (hedns ed hed).high
+      show ed.rcodeHigh * 16 + md0.rcode % 16 < 4096; omega
+  · intro ed hed
+    have hew := hedns ed hed
+    have hhigh := hew.high
+    refine ⟨hew, ?_⟩
+    rw [hmd, hed]
+    show ed.rcodeHigh = (ed.rcodeHigh * 16 + md0.rcode % 16) / 16 % 256
+    omega
+  · intro s' hs'
+    rw [hsig] at hs'
+    cases hs'
+    exact hswf
+  · have hfq := fq_of_sections hq (fun r hr => (san r hr).2) (fun r hr => (sns r hr).2) (fun r hr => (sar r hr).2)
+    unfold decodedForm
+    rw [hfq, hsig]
+    simp only [Option.map_some, hsfq]
+    cases m with
+    | mk md qs an ns ar sg ed => simp only at hsig; subst hsig; rfl
+  · intro hed
+    rw [hmd, hed]
+    exact hrc
+
+/-- **Any string of octets that decodes to a message carrying a TSIG record — with or without EDNS,
+SIG(0) records among the additionals included — re-encodes to bytes that decode to the same message**,
+provided the re-encoding fits. -/
+theorem reencode_stable_decoded_tsig_partial (opq : Nat → Rd Bytes) (b bs : Bytes) (m : Message) (s : Record)
+    (p : Nat) (hb : Bytes.WF b) (hdec : Rd.run (readMessage opq) b 0 = .ok (m, p)) (hc : Covered m)
+    (hsig : m.signature = some s) (hfits : EncFits m bs) :
+    Rd.run (readMessage opq) bs 0 = .ok (m, bs.length) := by
+  obtain ⟨hwf, hdf, hrc⟩ := readMessage_wft opq b m s p hb hdec hc hsig
+  obtain ⟨md', c, e', he, rfl, h1, h2, h3⟩ := hfits
+  rw [hsig] at h3
+  cases hed : m.edns with
+  | none =>
+    rw [hed] at h3
+    have := decode_encode_tsig_noedns_partial opq m s hwf hed (hrc hed) hsig 65535 md' c e' he
+      ⟨h1, h2, by simpa using h3⟩
+    rwa [hdf] at this
+  | some ed =>
+    rw [hed] at h3
+    have := decode_encode_tsig_partial opq m ed s hwf hed hsig 65535 md' c e' he ⟨h1, h2, by simpa using h3⟩
+    rwa [hdf] at this
+
+/-- **`reencode_stable`, all cases in one**: any string of octets that decodes — every record type
+hickory decodes, with or without EDNS, with or without a TSIG record — re-encodes, if the re-encoding
+fits (`EncFits`), to bytes that decode to the same message.  The only hypotheses left are the octet
+range of the input, `Covered` (no record whose RDATA variant is outside the model: there is none among
+the variants the decoder produces except `ZERO`, which never decodes) and `EncFits`. -/
+theorem reencode_stable_covered_partial (opq : Nat → Rd Bytes) (b bs : Bytes) (m : Message) (p : Nat)
+    (hb : Bytes.WF b) (hdec : Rd.run (readMessage opq) b 0 = .ok (m, p)) (hc : Covered m)
+    (hfits : EncFits m bs) : Rd.run (readMessage opq) bs 0 = .ok (m, bs.length) := by
+  cases hsig : m.signature with
+  | some s => exact reencode_stable_decoded_tsig_partial opq b bs m s p hb hdec hc hsig hfits
+  | none =>
+    cases hed : m.edns with
+    | none => exact reencode_stable_decoded_partial opq b bs m p hb hdec hc hed hsig hfits
+    | some ed => exact reencode_stable_decoded_edns_partial opq b bs m ed p hb hdec hc hed hsig hfits
+
 end HickoryVerif.C02
